@@ -122,7 +122,10 @@ def scenario_strategy() -> Any:
             third.append({"t": draw(st.sampled_from((0.05, 0.3, 0.6, 1.0, 2.0, 3.05, 4.0, 6.0))), "kind": draw(st.sampled_from(("offer", "orcon-offer", "accept", "confirm", "addenda")))})
         return {"flow": fi, "mode": mode, "fates": draw(fates(mode)), "third": third, "after_offer_only": True,
                 "start": {"resp": draw(st.sampled_from((0.0, 0.0, 0.5, 1.0, 4.9))), "supp": draw(st.sampled_from((0.0, 0.1, 1.0, 4.9, 5.2)))},
-                "ratify": bool(flow["ratify"]) and (draw(st.booleans()) or mode == "dead") and mode != "resent", "retry": True}
+                "ratify": bool(flow["ratify"]) and (draw(st.booleans()) or mode == "dead") and mode != "resent", "retry": True,
+                # the supplicant's PUBLIC entry point (Device.initiate_binding_process(), as an application calls it: the class supplies its own
+                # offer codes - a single code for a DHW sensor / a nuaire remote) instead of the private one with explicit code lists
+                "public_api": draw(st.integers(0, 2)) == 0}
 
     return scenario
 
@@ -224,6 +227,10 @@ async def _run(loop: Any, case: dict) -> dict:
             resp._bind_context = BindContext(resp)
         resp._make_fake()
         ratify_cmd = Command(flow["ratify"]) if case.get("ratify") and flow["ratify"] else None
+        public = bool(case.get("public_api")) and "initiate_binding_process" in vars(type(supp))
+        if public:
+            ratify_cmd = None  # the public entry point takes no arguments (no addenda)
+        obs["public_api"] = public
 
         async def attempt(with_faults: bool, starts: dict) -> dict:
             eth.faults_on = with_faults
@@ -255,7 +262,13 @@ async def _run(loop: Any, case: dict) -> dict:
                 rec["t_done"] = loop.time() - t0
 
             tr = loop.create_task(role("resp", lambda: resp._wait_for_binding_request(flow["accept"], idx=flow["idx"], require_ratify=ratify_cmd is not None), starts["resp"]))
-            ts = loop.create_task(role("supp", lambda: supp._initiate_binding_process(flow["offer"], confirm_code=flow["confirm"], ratify_cmd=ratify_cmd), starts["supp"]))
+            if public:
+                async def _pub() -> Any:
+                    r = await supp.initiate_binding_process()  # documented to return the packets of the handshake
+                    return r
+                ts = loop.create_task(role("supp", _pub, starts["supp"]))
+            else:
+                ts = loop.create_task(role("supp", lambda: supp._initiate_binding_process(flow["offer"], confirm_code=flow["confirm"], ratify_cmd=ratify_cmd), starts["supp"]))
             if with_faults:
                 for th in case.get("third", []):
                     def inject(th: dict = th) -> None:
@@ -468,7 +481,7 @@ def explore(job: dict) -> dict:
         near = any(abs(c["d"] - w) <= 0.3 for f in case["fates"].values() for c in f["copies"] for w in (3.0, 5.0, 5.1) if not c["lose"])
         nt = case["mode"] != "clean" and (case["fates"] or case["third"])
         col.case(nt=jdump(case) if nt else None,
-                 classes=["scn", f"flow:{FLOWS[case['flow']]['name']}", f"mode:{case['mode']}", f"first:{outcomes}", "near-wait" if near else "not-near-wait",
+                 classes=["scn", "supp:public-api" if obs.get("public_api") else "supp:private-api", f"flow:{FLOWS[case['flow']]['name']}", f"mode:{case['mode']}", f"first:{outcomes}", "near-wait" if near else "not-near-wait",
                           "third-party" if case["third"] else "no-third-party", "ratify" if case["ratify"] else "no-ratify"],
                  sample={"flow": FLOWS[case["flow"]]["name"], "mode": case["mode"], "fates": case["fates"], "third": case["third"], "start": case["start"],
                          "first": {r: (att[r]["outcome"], att[r].get("exc"), round(att[r].get("t_done", -1), 2)) for r in ("resp", "supp") if r in att}})
